@@ -492,8 +492,27 @@ def wrap (seq : Str) : List (Nat × Tok) → List PTok
 def tokenize (e : Env) (tb : Tables) (keep : Bool) (seq : Str) (source : Str) : List PTok :=
   wrap seq (linenos 1 (tokeniter e tb keep source))
 
-/-- `Parser.subparse`: does this parser-visible begin token get the `lineprefix` wrapper -/
+/-- `value.endswith(a + b + c)` -/
+def endsWith3 (a b c : Char) (v : Str) : Bool :=
+  match v.reverse with
+  | z :: y :: x :: _ => x = a && y = b && z = c
+  | _ => false
+
+/-- `token.value.endswith(variable_start_string + '*')` for the default start string -/
+def isVariableMarker (v : Str) : Bool := endsWith3 '{' '{' '*' v
+/-- `token.value.endswith(block_start_string + '*')` for the default start string -/
+def isBlockMarker (v : Str) : Bool := endsWith3 '{' '%' '*' v
+
+/-- `Parser.subparse` (repaired, fix_marker_is_start_plus_star): does this parser-visible begin token get the `lineprefix`
+wrapper — its text ends in the start string followed by `*`.  A line statement whose prefix merely ends in `*` does not. -/
 def parserWraps (t : PTok) : Bool :=
+  match t with
+  | .tok _ ty v => (ty = .blockBegin && isBlockMarker v) || (ty = .variableBegin && isVariableMarker v)
+  | _ => false
+
+/-- the parser as found: `token.value.endswith('*')` — every line statement of an environment whose
+`line_statement_prefix` ends in `*` is taken for an auto-indent block -/
+def parserWrapsBeforeFix (t : PTok) : Bool :=
   match t with
   | .tok _ ty v => (ty = .blockBegin || ty = .variableBegin) && v.getLast? == some '*'
   | _ => false
